@@ -107,8 +107,13 @@ def run(tier):
     long_texts = []
     for arcs, val in ((42, 16384), (43, 16384), (62, 4294967295), (85, 16384), (86, 16384), (51, 4294967295), (52, 4294967295), (126, 16384), (126, 4294967295), (100, 268435456)):
         long_texts.append("1.3" + (".%d" % val) * arcs)
+    # every content length from 100 to 140 octets and from 240 to 262 (each enclosing header - varbind, varbind list, PDU, message -
+    # crosses its own 127/128 and 255/256 step at a different name length), in two shapes: one-octet arcs / five-octet arcs
+    for n in list(range(100, 141)) + list(range(240, 263)):
+        long_texts.append("1.3" + ".1" * (n - 1))
+        long_texts.append("1.3" + ".4294967295" * ((n - 1) // 5) + ".1" * ((n - 1) % 5))
     for i, txt in enumerate(long_texts):
-        for op in ("get", "get_many", "getnext", "getbulk"):
+        for op in (("get", "get_many", "getnext", "getbulk") if (i < 10 or thorough) else ("get", "getnext", "get_many", "getbulk")[(i % 2) * 2:(i % 2) * 2 + 2] + ("get",)):
             a, b = case(rec, cfg, agent, list(txt.encode()), op)
             runs.append((a, b, dict(s=list(txt.encode()), op=op, cls=0)))
             chk.case(("long", i, op))
